@@ -173,6 +173,10 @@ func genC13(g *Gen) {
 	p.Proxy.BufCap = 65536
 	g.cleanKernel()
 	p.Sched.SettleS = 6
+	if p.Variant == "mixed" {
+		p.Proxy.TimeoutMs = g.R.Range(100, 400)
+		p.Sched.WRelease = 2
+	}
 	// the proxy's view goes stale: every node keeps reporting topology 0 for the whole run
 	for _, nd := range base.Nodes {
 		p.Events = append(p.Events, Event{Kind: "set-view", When: When{Step: 1}, Node: nd.Addr, Topo: 0})
@@ -216,12 +220,17 @@ func genC13(g *Gen) {
 				}
 				return g.R.Intn(16384)
 			}
-			if g.R.Pct(30) {
+			if g.R.Pct(30) || (p.Variant == "mixed" && g.R.Pct(40)) {
 				var keys, vals []string
 				cmd := g.R.Pick([]string{"mget", "del", "mset"})
 				nk := g.R.Range(2, 4)
 				for i := 0; i < nk; i++ {
-					keys = append(keys, Key(tok, i, pickSlot(), ""))
+					sfx := ""
+					if p.Variant == "mixed" && g.R.Pct(35) {
+						// a sibling fragment is answered with an error (or stalls) while another one is being redirected
+						sfx = g.R.Pick([]string{"~E1", "~E3", "~T", "~D900"})
+					}
+					keys = append(keys, Key(tok, i, pickSlot(), sfx))
 				}
 				if cmd == "mset" {
 					for range keys {
@@ -264,7 +273,8 @@ func genC13(g *Gen) {
 }
 
 func checkC13(d *Driver, res *Result) {
-	d.StdReplyCheck("C13", Relax{})
+	// in the "mixed" variant stalls, timeouts and backend errors are injected next to the redirects: a proxy error may stand in
+	d.StdReplyCheck("C13", Relax{AllowProxyError: d.P.Variant == "mixed"})
 	// termination: count re-sends per request token
 	perTok := map[string]int{}
 	moved, ask := 0, 0
